@@ -5,3 +5,10 @@ import LopdfModel.Model.Basic
 import LopdfModel.Model.Obj
 import LopdfModel.Model.Pages
 import LopdfModel.Thm.C12
+import LopdfModel.Gen.CMapConsts
+import LopdfModel.Model.CMap
+import LopdfModel.Model.CMapParse
+import LopdfModel.Spec.CMapSpec
+import LopdfModel.Lemmas.RangeMap
+import LopdfModel.Lemmas.CMapBuild
+import LopdfModel.Thm.C15
